@@ -609,6 +609,38 @@ def c15_bin_sweep(rep, d, tier):
 
     pmap(do, range(5, smax + 1))
     rep.count("cases.bin_size_sweep", smax - 4)
+
+    # the multiplicity axis beyond 2^16 (and, thorough, 2^24) with bins wide enough to tell such counts apart
+    def wide(job):
+        copies, s, c = job
+        recs = [b"A" * (copies + k - 2), x, b"A" * k]
+        wd = fresh_dir("wide")
+        fa = os.path.join(wd, "in.fa")
+        open(fa, "wb").write(fasta_bytes(recs))
+        out = os.path.join(wd, "out")
+        args = ["cov", "-i", fa, "-o", out, "-k", str(k), "-s", str(s), "-c", str(c), "--counts", "-t", "2"]
+        rc, so, err, to = cli(args, timeout=300)
+        rep.ev(1, 1)
+        a = {"copies": copies, "s": s, "c": c}
+        if to or rc != 0:
+            rep.violation("accepted-options-failed", 5, "kmertools %s: exit %s stderr %r" % (" ".join(args[:1] + args[5:]), rc, err[-300:]), "c15_bins_wide", a)
+        else:
+            rows = lines_of(read(os.path.join(out, "kmers.vectors"))) or []
+            exp = []
+            for r, mult in ((recs[0], copies), (x, 1), (recs[2], copies)):
+                row = [0] * c
+                row[min(mult // s, c - 1)] = len(r) - k + 1
+                exp.append(b" ".join(b"%d" % v for v in row))
+            if [[float(t) for t in r.split(b" ")] for r in rows] != [[float(t) for t in r.split(b" ")] for r in exp]:
+                rep.violation("bin-of-large-count", 5, "kmertools %s on a record holding one %d-mer %d times: rows %r, expected %r (bin = count // %d, last bin open-ended)" % (
+                    " ".join(args[:1] + args[5:]), k, copies, [r[:80] for r in rows], [r[:80] for r in exp], s), "c15_bins_wide", a)
+        shutil.rmtree(wd, ignore_errors=True)
+
+    jobs = [(70_000, 10_000, 10), (70_000, 1000, 100), (70_000, 65_536, 5), (140_000, 65_536, 5), (65_535, 13_107, 7), (65_536, 13_107, 7), (65_537, 8192, 9)]
+    if tier == "thorough":
+        jobs += [((1 << 24) + 5, 1 << 20, 20), ((1 << 24) + 5, 1 << 24, 5)]
+    pmap(wide, jobs)
+    rep.count("cases.bin_wide_geometry", len(jobs))
     rep.sample("kmertools cov -k 15 -s 49 -c 5 --counts on 49 x X, 98 x Y, 147 x Z, 97 x U (single-window records): rows of X in bin 1, Y in bin 2, Z in bin 3, U in bin 1; every -s from 5 to %d" % smax)
 
 
@@ -834,8 +866,9 @@ def c_env_cpus(tier, kinds):
     counts = [n for n in ((1, 2, 3, 6) if tier == "quick" else range(1, len(cpus))) if n < len(cpus)]
     d = fresh_dir("cpuin")
     sets = {}
+    clean = "cgr" in kinds  # whole-sequence CGR refuses records with ambiguous bytes
     for nrec in (3, 16, 37):
-        recs = lcg_records(nrec, 500 + nrec, 24, 70, True)
+        recs = lcg_records(nrec, 500 + nrec, 24, 70, not clean)
         sets[nrec] = (recs, write_inputs(d, "c%d" % nrec, recs))
     threads = (0, 1, 2, 3, 4, 8, 16)
 
@@ -847,22 +880,24 @@ def c_env_cpus(tier, kinds):
         if kind == "kcgr":
             return ["comp", "cgr", "-i", inp, "-o", out, "-k", "3", "-v", "8", "-t", str(t)], [""]
         if kind == "cov":
-            return ["cov", "-i", inp, "-o", out, "-k", "9", "-s", "1", "-c", "6", "-t", str(t)], ["/kmers.vectors", "/kmers.counts"]
+            return ["cov", "-i", inp, "-o", out, "-k", "11", "-s", "5", "-c", "6", "-t", str(t)], ["/kmers.vectors", "/kmers.counts"]
         if kind == "ctr":
-            return ["ctr", "-i", inp, "-o", out, "-k", "9", "-t", str(t)], ["/kmers.counts"]
+            return ["ctr", "-i", inp, "-o", out, "-k", "11", "-t", str(t)], ["/kmers.counts"]
         if kind == "s2m":
-            return ["min", "-i", inp, "-o", out, "-m", "5", "-w", "9", "-p", "s2m", "-t", str(t)], [""]
+            return ["min", "-i", inp, "-o", out, "-m", "7", "-w", "11", "-p", "s2m", "-t", str(t)], [""]
         if kind == "m2s":
-            return ["min", "-i", inp, "-o", out, "-m", "5", "-w", "9", "-p", "m2s", "-t", str(t)], [""]
+            return ["min", "-i", inp, "-o", out, "-m", "7", "-w", "11", "-p", "m2s", "-t", str(t)], [""]
         raise ValueError(kind)
 
     def canon(kind, suffix, data):
         if data is None:
             return None
         if suffix == "/kmers.counts":
-            return parse_counts(data, False, 9)
+            return parse_counts(data, False, 11)
         if kind == "m2s":
             return m2s_canon(data)
+        if kind == "s2m":
+            return sorted(lines_of(data) or [])  # the order of the lines is the workers' (C10: one line per record)
         return data
 
     def outcome(kind, nrec, t, ncpu):
@@ -883,7 +918,9 @@ def c_env_cpus(tier, kinds):
                     jobs.append(("header", n, k, None))
             continue
         for nrec in sets:
-            base, _ = outcome(kind, nrec, 1, None)
+            base, berr = outcome(kind, nrec, 1, None)
+            if base[0] != 0 or any(x is None for x in base[2]):
+                raise fe.Machinery("c_env_cpus: the unrestricted one-thread run of %s failed (exit %s): %r" % (kind, base[0], berr[-200:]))
             for n in counts:
                 for t in threads:
                     jobs.append((kind, n, t, (nrec, base)))
@@ -1056,6 +1093,16 @@ def fasta_bytes(recs):
     return b"".join(b">r%d d\n%s\n" % (i, r) for i, r in enumerate(recs))
 
 
+def fastq_bytes(recs, wrap=None):
+    out = []
+    for i, r in enumerate(recs):
+        w = wrap or max(len(r), 1)
+        qual = bytes((b"I@+>"[(j // w + i) % 4]) if j % w == 0 else 33 + (i + j) % 60 for j in range(len(r)))
+        lines = lambda x: b"".join(x[j:j + w] + b"\n" for j in range(0, len(x), w))
+        out.append(b"@r%d d\n" % i + lines(r) + b"+\n" + lines(qual))
+    return b"".join(out)
+
+
 C16_VARIANTS = [
     # name, size k/m, window, threads-sensitive
     ("oligo", 3, None), ("oligo-c", 3, None), ("oligo-stdin", 3, None), ("oligo-csv", 3, None), ("oligo-tsv-H", 3, None), ("cgr", 3, None), ("kcgr", 3, None),
@@ -1067,9 +1114,16 @@ def c16_check(variant, recs, t, wd, final_newline=True):
     """runs one CLI case; returns None if fine, else (key, message)"""
     name, kk, ww = variant
     data = fasta_bytes(recs)
+    ext = "fa"
+    if final_newline in ("fq", "fqw"):
+        # the same records as FASTQ, one line per part or wrapped at 3 (the format allows it and the reader reads it);
+        # quality lines start with the characters that also mark records
+        ext = "fq"
+        data = fastq_bytes(recs, 3 if final_newline == "fqw" else None)
+        final_newline = True
     # a third of the cases (by content) use names with a blank and a non-ASCII letter, a third relative paths
     mode = (len(data) + 2 * t) % 3
-    inp = os.path.join(wd, "in put \u00e9.fa" if mode == 1 else "in.fa")
+    inp = os.path.join(wd, ("in put \u00e9." if mode == 1 else "in.") + ext)
     cwd = wd if mode == 2 else None
     if final_newline == "bare" and data.endswith(b"\n\n"):
         # a last record without bases, written without a sequence line and without a line terminator: the file ends
@@ -1241,6 +1295,11 @@ def c16(tier):
                 cases.append((variant, l, 2, False))
                 if l[-1] == "empty" and len(l) >= 2:
                     cases.append((variant, l, 3, "bare"))
+            # the same records in a FASTQ file (records without bases cannot be written there), wrapped and not
+            if l and len(l) <= 2 and "empty" not in l and name != "oligo-stdin" and not any(n.endswith("000") for n in l):
+                cases.append((variant, l, 4, "fqw"))
+                if len(l) == 1:
+                    cases.append((variant, l, 1, "fq"))
 
     # record counts at and around the powers of two a writer could plausibly chunk its work by (and the 10 000 of
     # the progress messages): degenerate records only, three shapes in rotation
@@ -1268,7 +1327,7 @@ def c16(tier):
         rep.ev(1, 1)
         rep.outcome("%s:%s" % (variant[0], "ok" if res is None else res[0]))
         if res is not None:
-            rep.violation(res[0], sum(len(r) + 1 for r in recs[:50]) + 10 * len(recs), res[1] + ("" if final_nl is True else " [input without final line feed]" if final_nl is False else " [input ends with the header text of a record without bases]"), "c16", {"variant": list(variant), "shapes": list(l), "t": t, "final_newline": final_nl})
+            rep.violation(res[0], sum(len(r) + 1 for r in recs[:50]) + 10 * len(recs), res[1] + ("" if final_nl is True else " [input without final line feed]" if final_nl is False else " [FASTQ input]" if final_nl == "fq" else " [FASTQ input wrapped at 3]" if final_nl == "fqw" else " [input ends with the header text of a record without bases]"), "c16", {"variant": list(variant), "shapes": list(l), "t": t, "final_newline": final_nl})
         shutil.rmtree(wd, ignore_errors=True)
 
     pmap(do, cases)
